@@ -467,6 +467,15 @@ func init() {
 			}
 		}
 	})
+	hx.RegisterReplayer("C06/dispatch-type-removed", func(r *hx.Run, data json.RawMessage) {
+		var c c06wfCase
+		if err := json.Unmarshal(data, &c); err != nil {
+			panic(err)
+		}
+		if k, m := checkTypeRemoved(&c); k != "" {
+			r.Report(k, m, "C06/dispatch-type-removed", &c)
+		}
+	})
 	hx.RegisterReplayer("C06/workflow", func(r *hx.Run, data json.RawMessage) {
 		var c c06wfCase
 		if err := json.Unmarshal(data, &c); err != nil {
@@ -810,5 +819,119 @@ func TestC06(t *testing.T) {
 				r.Fail(rt, k, m, "C06/workflow", c)
 			}
 		})
+		// workflow_dispatch inputs: an input without `type:` is typed any. Dropping the type of one input
+		// (with its options) never adds a diagnostic, whatever the other inputs are and wherever it is used.
+		r.Check(t, "dispatch-input-type-removed", hx.N(1500, 30000), func(rt *rapid.T) {
+			type inp struct {
+				name, ty, def string
+			}
+			var ins []inp
+			n := rapid.IntRange(2, 4).Draw(rt, "ninputs")
+			for i := 0; i < n; i++ {
+				in := inp{name: fmt.Sprintf("in%d", i), ty: rapid.SampledFrom([]string{"string", "boolean", "number", "choice", "environment"}).Draw(rt, "ty")}
+				if rapid.Bool().Draw(rt, "hasdef") {
+					in.def = map[string]string{"string": "latest", "boolean": "true", "number": "3", "choice": "o1", "environment": "prod"}[in.ty]
+				}
+				ins = append(ins, in)
+			}
+			var uses []string
+			nu := rapid.IntRange(1, 5).Draw(rt, "nuses")
+			for i := 0; i < nu; i++ {
+				v := "inputs." + ins[rapid.IntRange(0, n-1).Draw(rt, "which")].name
+				if rapid.IntRange(0, 3).Draw(rt, "viaevent") == 0 {
+					v = "github.event." + v
+				}
+				uses = append(uses, fmt.Sprintf(rapid.SampledFrom([]string{"%s", "fromJSON(%s)", "fromJSON(%s).name", "%s.prop", "%s[0]", "%s == 1", "%s == 'x'", "startsWith(%s, 'a')", "%s && true", "format('{0}', %s)", "join(%s, ',')", "contains(%s, 'a')", "!%s", "%s.*.x", "toJSON(%s)"}).Draw(rt, "use"), v))
+			}
+			typedPos := rapid.SampledFrom([]string{"", "timeout-minutes", "continue-on-error", "matrix"}).Draw(rt, "typedpos")
+			typedIn := ins[rapid.IntRange(0, n-1).Draw(rt, "typedin")].name
+			render := func(drop int) string {
+				var b strings.Builder
+				b.WriteString("on:\n  workflow_dispatch:\n    inputs:\n")
+				for i, in := range ins {
+					fmt.Fprintf(&b, "      %s:\n        description: d\n", in.name)
+					if i != drop {
+						fmt.Fprintf(&b, "        type: %s\n", in.ty)
+						if in.ty == "choice" {
+							b.WriteString("        options: [o1, o2]\n")
+						}
+					}
+					if in.def != "" {
+						fmt.Fprintf(&b, "        default: %s\n", in.def)
+					}
+				}
+				b.WriteString("jobs:\n  a:\n    runs-on: ubuntu-latest\n")
+				if typedPos == "matrix" {
+					fmt.Fprintf(&b, "    strategy:\n      matrix: ${{ fromJSON(inputs.%s) }}\n", typedIn)
+				}
+				b.WriteString("    steps:\n")
+				for _, u := range uses {
+					fmt.Fprintf(&b, "      - run: echo\n        env:\n          V: ${{ %s }}\n", u)
+				}
+				if typedPos == "timeout-minutes" || typedPos == "continue-on-error" {
+					fmt.Fprintf(&b, "      - run: echo\n        %s: ${{ inputs.%s }}\n", typedPos, typedIn)
+				}
+				return b.String()
+			}
+			base := render(-1)
+			d0, err, pan, _ := lintSafe([]byte(base))
+			if pan != nil || err != nil {
+				r.Fail(rt, "C06/panic", fmt.Sprintf("%v %v\n%s", pan, err, base), "C06/dispatch-type-removed", &c06wfCase{Base: base, Loose: base})
+			}
+			have := map[string]int{}
+			for _, d := range d0 {
+				have[d.Kind+"|"+d.Msg]++
+			}
+			for drop := 0; drop < n; drop++ {
+				c := &c06wfCase{Base: base, Loose: render(drop), What: fmt.Sprintf("removing the type of input %s (%s)", ins[drop].name, ins[drop].ty)}
+				r.Eval()
+				r.NT(c.Loose)
+				r.Class(fmt.Sprintf("dispatch-type-removed/%s/position-%d-of-%d", ins[drop].ty, drop+1, n))
+				if drop == 0 {
+					r.Sample(c.Loose)
+				}
+				if k, m := checkTypeRemoved(c); k != "" {
+					r.Fail(rt, k, m, "C06/dispatch-type-removed", c)
+				}
+			}
+		})
 	})
+}
+
+// checkTypeRemoved: a diagnostic of the loosened workflow below `jobs:` sits on a line that already has
+// a diagnostic in the base (the message may differ: `x.*` is an array whatever x is); a diagnostic in
+// the inputs section must be reported with the same message for the base.
+func checkTypeRemoved(c *c06wfCase) (key, msg string) {
+	d0, _, _, _ := lintSafe([]byte(c.Base))
+	d1, err, pan, st := lintSafe([]byte(c.Loose))
+	if pan != nil {
+		return "C06/panic", fmt.Sprintf("panic %v at %s\n%s", pan, st, c.Loose)
+	}
+	if err != nil {
+		return "C06/linter-fatal", fmt.Sprintf("%v\n%s", err, c.Loose)
+	}
+	jobsLine := func(y string) int {
+		for i, l := range strings.Split(y, "\n") {
+			if l == "jobs:" {
+				return i + 1
+			}
+		}
+		return 0
+	}
+	j0, j1 := jobsLine(c.Base), jobsLine(c.Loose)
+	haveMsg := map[string]bool{}
+	haveLine := map[int]bool{}
+	for _, d := range d0 {
+		haveMsg[d.Kind+"|"+d.Msg] = true
+		if d.Line > j0 {
+			haveLine[d.Line-j0] = true
+		}
+	}
+	for _, d := range d1 {
+		if d.Line > j1 && haveLine[d.Line-j1] || d.Line <= j1 && haveMsg[d.Kind+"|"+d.Msg] {
+			continue
+		}
+		return "C06/untyped-dispatch-input-introduces-diagnostic", fmt.Sprintf("%s appears only after %s\n--- base: %v\n%s\n--- loosened\n%s", d, c.What, diagStrings(d0), c.Base, c.Loose)
+	}
+	return "", ""
 }
